@@ -225,6 +225,16 @@ def invariant_provenance(run, model, rule="C04.inv-prov", rule_own="C17.own-list
         run.violation(rule_own, fi.qual, "expected one store of the merged list into the namespace, found %d" % len(stores), fi.loc())
         return
     st = stores[0]
+    if len(ext) == 2 and bad is None:
+        # what is stored is the merged list itself: every invariant collected, none filtered out or re-ordered on the way
+        stored = strip_sites(flow.term(st.ast.value, st))
+        others = [(n, how) for n, how, recv in sites if strip_sites(recv) == strip_sites(r1) and how != "extend"]
+        bad2 = None
+        if stored != strip_sites(r1):
+            bad2 = "the list stored in the namespace is %s, not the list the invariants of the bases and of the class were collected into: invariants can get lost (or re-ordered) between collection and store" % show(stored, 80)
+        elif others:
+            bad2 = "the merged list is changed in place after collection (`%s`)" % others[0][1]
+        run.check(bad2 is None, rule, fi.qual + ":stored", "the list stored in the namespace is the merged list itself", bad2 or "", fi.loc(st), None, first_line(st.stmt))
     gg = GuardGraph(flow)
     # decisions guarding the store, evaluated for: merged list empty / non-empty x some base has the dunder
     # region after the loops is loop-free from the last extend to the exit
